@@ -36,10 +36,13 @@ def gen_cases(rng, tier: str) -> list[dict]:
             exprs += [("hidden", h) for h in c02.hiding_parents(g, bad)[:6]]
     for origin, e in exprs:
         vs = common.names_of(e)
+        prior = None
         for p in common.points_for(rng, e, 2, extra=0.3):
             c = common.make_eval_case(origin, e, p)
             c["x"] = rng.choice(vs) if vs and rng.random() < 0.85 else "w"
             c["xobj"] = rng.random() < 0.5
+            c["prior"] = prior
+            prior = c["p"]
             cases.append(c)
     return cases
 
@@ -66,7 +69,9 @@ def check_cases(cases: list[dict], rep: Report, known: dict) -> None:
         names = routes.routes_for(e, c["x"])
         group = []
         for r in names:
-            fresh = wire.build_raw(c["e"])       # history-free: C09 covers histories
+            fresh = wire.build_raw(c["e"])       # fresh object; at most one earlier evaluation elsewhere
+            if c.get("prior"):
+                call(fresh.at, wire.build_point(c["prior"]))
             xx = x
             if r in routes.DERIV_ROUTES:
                 xx = None
